@@ -108,6 +108,23 @@ class Context:
         elif isinstance(expr, ast.Binop):
             a = self.eval_const(expr.a)
             b = self.eval_const(expr.b)
+            if (
+                expr.op in ("/", "%")
+                and isinstance(a, int)
+                and isinstance(b, int)
+            ):
+                # Integer division truncates toward zero and the remainder
+                # has the sign of the dividend, like the run-time operators:
+                if b == 0:
+                    raise SemanticError(
+                        "Division by zero in constant expression", expr.loc
+                    )
+                quotient = abs(a) // abs(b)
+                if (a < 0) != (b < 0):
+                    quotient = -quotient
+                if expr.op == "/":
+                    return quotient
+                return a - b * quotient
             ops = {
                 "+": operator.add,
                 "-": operator.sub,
